@@ -35,11 +35,17 @@ COVERAGE TABLE (statement / quantifier dimension -> explored by -> still a singl
                            file's fault while the others use the SAME custom template + schema with other per-file
                            parameters (replayed 6x: the outcome may depend on the order drawn); a missing
                            interface on top of a failing file                                -> absent: two independent
-                           faults, a partial write inside os.WriteFile, ENOSPC, http(s) templates
+                           faults, a partial write inside os.WriteFile, ENOSPC, an http(s) template that cannot be fetched
+  template source x env    spec/PipelineEnv.tla: custom template + schema from file:// or from an http:// loopback server x process
+                           environment {normal, no HOME / XDG_CACHE_HOME / XDG_CONFIG_HOME at all (GOCACHE, GOMODCACHE, GOPATH
+                           given), HOME inside the tree, XDG_CACHE_HOME inside the tree, TMPDIR inside the tree} x {no fault, exec
+                           fault, write failpoint} x {paths absent, one occupied} x force; whatever lies below the directory the
+                           environment names as home / cache / temp is left open, everything else is frame   -> absent: working
+                           directory different from the config file's directory, https, proxies, unreachable server
   frame                    unrelated files, sources, unconfigured package, look-alike directory, read-only sentinel (+mode),
                            neighbours in the output directory, go.mod / go.sum / go.work(.sum) incl. untidy-but-resolvable
                            modules, run in the go command's default -mod          -> absent: anything outside the module
-                           root (HOME, TMPDIR, GOCACHE are not hashed), vendor/
+                           root (the real HOME, TMPDIR, GOCACHE are not hashed), vendor/
   old-or-new / complete    new = bytes a run producing ONLY that file writes (so nothing of another file can leak in); old
                            generated content is longer than new (catches non-truncating writes)  -> absent: a real second
                            run after the interface changed (history of length 2 is simulated by the "generated" state)
@@ -47,10 +53,12 @@ COVERAGE TABLE (statement / quantifier dimension -> explored by -> still a singl
                            unicode / very long names, several missing directory levels
   exit status              zero iff nothing failed (contract), judged on every run; missing interface worlds
 """
+import http.server
 import json
 import os
 import re
 import shutil
+import subprocess
 import sys
 import threading
 import time
@@ -118,6 +126,59 @@ MIXED = {"schema": "custom-schema-shared-mixed", "template": "schema-missing-sha
 ORDER_REPEATS = 6
 _dirseq = iter(range(1, 10 ** 9))
 _dirlock = threading.Lock()
+
+
+class Loopback:
+    """loopback HTTP server for http:// templates and schemas (the one of checks/c12.py)"""
+
+    def __init__(self):
+        self.routes = {}
+        self.log = []
+        lock = threading.Lock()
+        outer = self
+
+        class H(http.server.BaseHTTPRequestHandler):
+            def do_GET(self):
+                with lock:
+                    outer.log.append(self.path)
+                    body = outer.routes.get(self.path)
+                if body is None:
+                    self.send_response(404)
+                    self.end_headers()
+                    self.wfile.write(b"not found\n")
+                    return
+                self.send_response(200)
+                self.send_header("Content-Length", str(len(body)))
+                self.end_headers()
+                self.wfile.write(body)
+
+            def log_message(self, *a):
+                pass
+
+        self.srv = http.server.ThreadingHTTPServer(("127.0.0.1", 0), H)
+        self.srv.daemon_threads = True
+        self.port = self.srv.server_address[1]
+        self.thread = threading.Thread(target=self.srv.serve_forever, daemon=True)
+        self.thread.start()
+
+    def close(self):
+        self.srv.shutdown()
+        self.srv.server_close()
+
+
+_goenv_cache = {}
+
+
+def toolchain_env():
+    """what the go command mockery shells out to needs when HOME is absent or points elsewhere: the locations it would
+    otherwise derive from HOME, given explicitly (the way an `env -i` CI job does)"""
+    if not _goenv_cache:
+        p = subprocess.run(["go", "env", "GOCACHE", "GOMODCACHE", "GOPATH"], capture_output=True, text=True, timeout=120)
+        vals = p.stdout.split("\n")
+        if p.returncode != 0 or len(vals) < 3 or not all(os.path.isabs(v) for v in vals[:3]):
+            raise MachineryError("cannot determine GOCACHE / GOMODCACHE / GOPATH: " + p.stderr[-300:])
+        _goenv_cache.update(GOCACHE=vals[0], GOMODCACHE=vals[1], GOPATH=vals[2])
+    return dict(_goenv_cache)
 
 
 def newdir(ctx, prefix):
@@ -420,6 +481,7 @@ class Replayer:
         self.reflocks = {}
         self.reflock = threading.Lock()
         self.runs = []          # (RunResult, case id)
+        self.web = None         # Loopback, started by run() when environment worlds are replayed
         self.runlock = threading.Lock()
 
     def reference(self, pid):
@@ -508,6 +570,38 @@ class Replayer:
             for f in appears:
                 os.mkfifo(ch["fifo"][f])
         files, conf, des, failspec = build(d, case, ch, self.profiles)
+        envx = item.get("envx")         # environment / template-source world of spec/PipelineEnv.tla
+        run_env, run_unset, open_below = dict(USER_ENV), (), ()
+        if envx:
+            if envx["tsrc"] == "http":
+                # every custom template (and its schema, where one exists) of this world is served by the loopback server
+                pre = f"file://{d}/tmpl/"
+                base = f"/{d.name}/"
+
+                def to_http(node):
+                    if isinstance(node, dict):
+                        for k, v in list(node.items()):
+                            if k == "template" and isinstance(v, str) and v.startswith(pre):
+                                name = v[len(pre):]
+                                for n in (name, name + ".schema.json"):
+                                    if "tmpl/" + n in TEMPLATES:
+                                        self.web.routes[base + n] = TEMPLATES["tmpl/" + n].encode()
+                                node[k] = f"http://127.0.0.1:{self.web.port}{base}{name}"
+                            else:
+                                to_http(v)
+                to_http(conf)
+                if "http://" not in json.dumps(conf):
+                    raise MachineryError("an http world without any http:// template")
+            run_env.update(toolchain_env())
+            run_unset = tuple(envx["expect"]["unset"])
+            open_below = tuple(envx["expect"]["open_below"])
+            for od in open_below:
+                files[od + "/already-here.txt"] = "a file the user keeps in this directory\n"
+                for var in envx["expect"]["point_at_envdir"]:
+                    run_env[var] = str(d / od)
+            if bool(open_below) != bool(envx["expect"]["point_at_envdir"]) or len(open_below) > 1:
+                raise MachineryError("PipelineEnv: environment directory and the variables pointing at it disagree")
+        is_open = lambda rel: any(rel == od or rel.startswith(od + "/") for od in open_below)  # noqa: E731
         links = {}
         for f in FILES:
             st = w["fs0"][f]
@@ -545,7 +639,7 @@ class Replayer:
             t = threading.Thread(target=feed, daemon=True)
             t.start()
             feeders.append(t)
-        r = pipetrace.run(ctx, d, env=USER_ENV, fail=failspec)
+        r = pipetrace.run(ctx, d, env=run_env, fail=failspec, unset=run_unset)
         stop.set()
         for t in feeders:
             t.join(5)
@@ -565,14 +659,16 @@ class Replayer:
         r.changed = [rel if prof["layout"] == "sep" else str(d / rel)
                      for rel in sorted(set(before) | set(after))
                      if before.get(rel) != after.get(rel) and before.get(rel) != "DIR" and after.get(rel) != "DIR"
-                     and rel not in link_targets]
+                     and rel not in link_targets and not is_open(rel)]
         with self.runlock:
             self.runs.append((r, item["id"]))
         out = []
         fault = w["fault"]
         base_sig = {"stage": fault["at"] if fault["kind"] in ("stage", "shared") else "none", "variant": ch["variant"] or "none",
                     "layout": prof["layout"]}
-        detail = {"case": case, "choices": ch, "profile": prof, "config": conf, "failpoint": failspec,
+        if envx:
+            base_sig.update(env=envx["env"], tsrc=envx["tsrc"])
+        detail = {"case": case, "envx": envx, "choices": ch, "profile": prof, "config": conf, "failpoint": failspec,
                   "run": r.brief(), "designated": des}
         if r.timed_out:
             raise MachineryError(f"mockery timed out on case {item['id']}")
@@ -611,6 +707,8 @@ class Replayer:
             if rel in desset:
                 continue
             b, a = before.get(rel), after.get(rel)
+            if is_open(rel) and (rel not in open_below or a == "DIR"):
+                continue        # below the home / cache / temp directory the environment names: left open ("either")
             if b == a:
                 if mbefore.get(rel) != mafter.get(rel):
                     out.append((dict(base_sig, kind="frame", what="mode-changed"), dict(detail, path=rel)))
@@ -633,7 +731,10 @@ class Replayer:
                         dict(detail, path=rel, before=b, after=a)))
         if not out and not os.environ.get("VERIF_KEEP"):
             shutil.rmtree(d, ignore_errors=True)       # thousands of worlds in the thorough tier
-        summary = {"id": item["id"], "fs0": w["fs0"], "force": w["force"], "fault": {k: fault[k] for k in ("kind", "file", "files", "at", "class", "feature")},
+        if envx and envx["tsrc"] == "http" and not any(p.startswith(f"/{d.name}/") for p in list(self.web.log)) \
+                and r.code == 0:       # (a run that fails before it retrieves anything never asks; a successful one must have)
+            raise MachineryError(f"http world {item['id']}: the loopback server was never asked for its template")
+        summary = {"id": item["id"], "env": envx["env"] if envx else "-", "tsrc": envx["tsrc"] if envx else "-", "fs0": w["fs0"], "force": w["force"], "fault": {k: fault[k] for k in ("kind", "file", "files", "at", "class", "feature")},
                    "variant": ch["variant"], "layout": prof["layout"], "exit": r.code, "expected": exp["exit"],
                    "outcome": outcome, "allowed": exp["final"], "fired": sorted(fired)}
         return out, summary
@@ -750,6 +851,7 @@ def run(ctx):
     t_mc = bg("mc", "PipelineMC", f"Pipeline_c10_mc_{tier}.cfg", workers=6 if thorough else 4, timeout=2400, count=False,
               coverage=thorough)
     t_lv = bg("levels", "PipelineLevels", "Pipeline_levels.cfg", workers=1, timeout=300, count=False)
+    t_env = bg("env", "PipelineEnv", "PipelineEnv_cases.cfg", workers=1, timeout=300, count=False)
     phase = {}
     tp = time.time()
     ctx.mockery()
@@ -793,8 +895,47 @@ def run(ctx):
                 chz = choose(cases[i], profiles, levels, rng)
                 for k in range(ORDER_REPEATS if chz["variant"] in MIXED.values() else 1):
                     items.append({"id": i if k == 0 else f"{i}#{k}", "case": cases[i], "choices": chz})
+    # environment x template-source worlds (spec/PipelineEnv.tla): expectation exported by TLC like the others
+    r_env = joined(t_env, "env")
+    if not r_env.ok:
+        raise MachineryError("TLC failed on the environment-world export:\n" + r_env.tail())
+    ecases = r_env.prints("ENVCASE")
+    eclasses = sorted({(e["env"], e["tsrc"]) for e in ecases})
+    if len(eclasses) < 10 or not any(e["env"] == "no-home" and e["tsrc"] == "http" and not e["expect"]["open_below"] for e in ecases) \
+            or not any(e["expect"]["open_below"] for e in ecases) or any(e["expect"]["others"] != ["same"] for e in ecases):
+        raise MachineryError(f"vacuous environment-world export: {eclasses}")
+    n_env = 0
+    if not getattr(ctx, "replay", None):
+        rp.web = Loopback()
+        custom_profiles = [q if q.get("allcustom") else None for q in profiles]
+        by_cls = {}
+        for k, e in enumerate(ecases):
+            by_cls.setdefault((e["env"], e["tsrc"]), []).append(k)
+        pick = []
+        for key in sorted(by_cls):
+            ks = by_cls[key]
+            # quick: per (environment, source) class the fault-free world with nothing at the paths + two drawn ones
+            plain = [k for k in ks if ecases[k]["world"]["fault"]["kind"] == "none" and all(v == "absent" for v in ecases[k]["world"]["fs0"].values())]
+            pick += ks if thorough else sorted(set(plain[:1] + rng.sample(ks, 2)))
+        for k in pick:
+            e = ecases[k]
+            ecase = {"world": e["world"], "expect": e["expect"]}
+            chz = choose(ecase, [q for q in profiles if q.get("allcustom")], levels, rng)
+            items.append({"id": f"env{k}", "case": ecase, "choices": chz,
+                          "envx": {"env": e["env"], "tsrc": e["tsrc"], "expect": e["expect"]}})
+            n_env += 1
+    elif det.get("envx"):
+        rp.web = Loopback()
+        items[0]["envx"] = det["envx"]
+    ctx.cov["environment_worlds_replayed"] = n_env
+    ctx.cov["environment_classes"] = [f"{a}/{b}" for a, b in eclasses]
     t0 = time.time()
     results = pipetrace.pmap(rp.replay, items, workers=12 if thorough else 10)
+    if rp.web:
+        ctx.cov["http_template_requests_served"] = len(rp.web.log)
+        if n_env and not rp.web.log:
+            raise MachineryError("vacuous: no http:// template was ever requested from the loopback server")
+        rp.web.close()
     replay_wall = time.time() - t0
     nviol = 0
     summaries = []
